@@ -303,6 +303,19 @@ def triage(ctx: Ctx, w: Write, kind: str, why: str, schema: Schema):
         sites = _call_sites(p, "_apply_args")
         ok = all(q.endswith(".__init__") for _, q, _, _, _ in sites) and bool(sites)
         return ok, "called only from __init__ (construction)" if ok else f"_apply_args is called outside construction: {[q for _, q, _, _, _ in sites]}"
+    # 7b. a private method / private module-level helper that only constructors call, working on the instance under
+    #     construction (the object is not visible to anyone else yet)
+    short = qn.split(".")[-1]
+    if short.startswith("_") and not short.startswith("__") and kind in ("self", "param"):
+        sites = _call_sites(p, short)
+        if sites and all(q.split(".")[-1] in CONSTRUCTION for _, q, _, _, _ in sites):
+            if kind == "self":
+                return True, f"{short} is called only from constructors ({len(sites)} site(s)): it fills in the instance under construction"
+            pname = why if why in ctx.params else None
+            if pname is not None:
+                pos = ctx.params.index(pname)
+                if all(len(c.args) > pos and isinstance(c.args[pos], ast.Name) and c.args[pos].id == "self" for _, _, _, _, c in sites):
+                    return True, f"{short} is called only from constructors, which pass the instance under construction as `{pname}`"
     # 8a. a container that lives on the CLASS (mutable display in the class body, never re-bound per instance in
     #     __init__) and is changed in place through self: one object shared by every instance and thread
     if ctx.ci is not None and kind == "self":
@@ -452,7 +465,7 @@ def e_rules(p: Project, rep: Report, thorough=False):
     rep.unit("write_sites", nw)
     for k, v in counts.items():
         rep.unit(f"writes_{k}", v)
-    rep.floor("E-R2", nw, 60, "write sites")
+    rep.floor("E-R2", nw, 50, "write sites")
     # ---- E-R4 shared parser / builder instances; mutable class-level containers mutated via self handled above
     parser_classes = set()
     for bname, kind_, payload in p.module("ofxtools.Parser").bindings:
